@@ -346,6 +346,9 @@ def module_files(root_file):
             base = os.path.join(base, os.path.basename(f)[:-3])
         for m in MOD.finditer(src):
             attrs, name = m.group(1), m.group(2)
+            if re.search(r"cfg\s*\(\s*(?:all\s*\(\s*)?linfa_verif", attrs):
+                # verification hooks (cfg linfa_verif) are not part of linfa
+                continue
             if re.search(r"cfg\s*\(\s*test\s*\)", attrs) or re.search(r'cfg\s*\(\s*not\s*\(\s*feature\s*=\s*"serde"', attrs):
                 continue
             if "path" in attrs:
